@@ -61,6 +61,8 @@ class Engine:
         self.used_defs = set()
         self.callees = set()         # contracts applied at call sites / lemmas used: the verification cone
         self.axioms_used = {}
+        self.nodup = set()           # ids of array terms that denote duplicate-free LISTS (len = cardinality)
+        self._nodup_keep = []
         self._set_cache = {}        # name -> definitional axiom of a spec-level function symbol that was used
 
     # ------------------------------------------------------------------ obligations
@@ -670,6 +672,16 @@ class Engine:
             if k == "str":
                 return [(st, vstr(z3.SubString(recv.x, i, 1)))]
             return [(st, from_term(recv.t[1], recv.x[i]))]
+        if k in ("bag", "set") and idx.t[0] == "int" and z3.is_int_value(z3.simplify(idx.x)) and not self.spec:
+            # xs[i] of a list seen as the collection of its elements: IndexError when empty, else SOME element (every order is covered)
+            x = z3.Const(fresh_name("e"), sort_of(recv.t[1]))
+            s_err = st.fork()
+            s_err.assume(z3.Not(z3.Exists([x], z3.Select(recv.x, x))))
+            if feasible(s_err):
+                self.do_raise(s_err, "IndexError", ln)
+            e = fresh(recv.t[1], "elem")
+            st.assume(z3.Select(recv.x, to_term(e)))
+            return [(st, e)]
         if k == "data" and recv.t[1] in DATA and idx.t[0] == "int":
             raise OutOfSubset("index into datatype")
         if k == "obj":
